@@ -182,6 +182,14 @@ func runC17(c *Ctx) {
 		wcore = zapcore.NewTee(c17failCore{enab}, core)
 		c.Fault("failing-sibling-core")
 	}
+	// one run in six: a core that decides in Check by the entry's message (a
+	// user filter that ignores blank lines): the lines logged are then the
+	// non-empty lines, in order
+	dropBlank := !verbose && g.Chance(6)
+	if dropBlank {
+		wcore = c17dropBlank{wcore}
+		c.R.Probe("writer over a core that filters by message in Check")
+	}
 	shared := zap.New(wcore, zap.ErrorOutput(zapcore.AddSync(io.Discard)))
 	wr := &zapio.Writer{Log: shared, Level: pick(g, zapcore.InfoLevel, zapcore.WarnLevel)}
 	if verbose {
@@ -233,7 +241,9 @@ func runC17(c *Ctx) {
 				if enabled {
 					for _, b := range ev.chunk {
 						if b == '\n' {
-							want = append(want, string(partial))
+							if !(dropBlank && len(partial) == 0) {
+								want = append(want, string(partial))
+							}
 							partial = partial[:0]
 							newlines++
 						} else {
@@ -380,6 +390,18 @@ func runC17(c *Ctx) {
 			return
 		}
 	}
+}
+
+// c17dropBlank declines entries whose message is empty; everything else is
+// the wrapped core's business.
+type c17dropBlank struct{ zapcore.Core }
+
+func (k c17dropBlank) With(fs []zapcore.Field) zapcore.Core { return c17dropBlank{k.Core.With(fs)} }
+func (k c17dropBlank) Check(e zapcore.Entry, ce *zapcore.CheckedEntry) *zapcore.CheckedEntry {
+	if e.Message == "" {
+		return ce
+	}
+	return k.Core.Check(e, ce)
 }
 
 // c17failCore enables what the judged core enables and fails every write.
